@@ -75,6 +75,36 @@ def main():
             evs = evs + evs2
             rels = [{"rel": "same_on" if online else "same_off", "x": 1, "y": 2}]
         cases.append(case(objs, evs, rels, skip=["evaluate.viol"]))
+    # ---- pastified monitors: bounded-future formulas, predicates whose operands have different horizons
+    import c03 as _c03
+    for i in range(n // 4):
+        S = rng.choice([1, 2])
+        vs = list(rng.choice([("x",), ("x", "y")]))
+        sem = rng.choice(SEMS)
+        io = {v: rng.choice(["input", "output"]) for v in vs}
+        g = Gen(rng, vars_=vs, S=S, ops=["not", "and", "or", "implies", "evT", "alwT", "next", "once", "prev"], ivs=[(0, 1), (1, 2), (0, 2)])
+        def atom(g=g):
+            if rng.random() < 0.4:       # a look-ahead inside the predicate: (next x) - x <= c
+                a_, b_ = rng.choice(vs), rng.choice(vs)
+                t_ = bi(rng.choice(["sub", "add"]), un("next", var(a_)), var(b_))
+                if rng.random() < 0.5:
+                    t_ = un("abs", t_)
+                return pred(rng.choice(g.cmps), t_, const(rng.choice([0, 1, 2])))
+            return ia_atoms(rng, g)
+        g.atom = atom
+        for _ in range(40):
+            phi = g.formula(rng.choice([0, 1, 1, 2]))
+            if (ops_of(phi) & FUT) and not _c03.past_over_future(phi) and vars_of(phi):
+                break
+        else:
+            continue
+        vs_u = vars_of(phi)
+        h = horizon(phi)
+        N = h + rng.choice([1, 2, 3, 5])
+        w = gen_trace(rng, vs_u, N, S, lo=-2, hi=3)
+        o = dt_obj(phi, S, vs_u, factory="StlDiscreteTimeSpecification", mode={"sem": sem, "io": {v: io.get(v, "output") for v in vs_u}}, set_io=True)
+        evs = [ev_parse(), ev_pastify()] + [ev_update(t, sample_at(w, t)) for t in range(N)]
+        cases.append(case([o], evs, skip=["update.viol"]))
     # ---- dense time: offline evaluate() and online update() (single batch) under the 5 semantics
     dcases = []
     for i in range(n // 3):
